@@ -442,7 +442,6 @@ var discardAllowed = map[string]string{
 	"removeValidatorsFromList#1":                         "the second result is the list of removed entries, informational",
 }
 
-
 // c12OneRemovalPerRequest: removeValidatorsFromList takes one occurrence out of the list for every
 // entry of the request (and never more than maxToRemove in all): after a removal the search loop
 // over the list is left - there is no way from the removal back to the head of that loop without
